@@ -1,0 +1,112 @@
+//go:build verif
+
+package websocket
+
+import (
+	"runtime"
+	"sync"
+)
+
+// Synchronisation trace for the correspondence harness under /verif (build tag verif only).
+
+const (
+	VerifEvLock      = 1 // a mu was acquired by lock / tryLock        (Mu = which one)
+	VerifEvUnlock    = 2 // a mu is about to be released by unlock
+	VerifEvForceLock = 3 // a mu was acquired by forceLock
+	VerifEvClosed    = 4 // Conn.close marked the connection closed
+	VerifEvFrame     = 5 // writeFrame passed its checks and starts writing (A = opcode, B = fin)
+	VerifEvArm       = 6 // a context was handed to the timeout goroutine (A = 0 read side / 1 write side, B = 1 arm / 0 re-arm with Background)
+	VerifEvGoStart   = 7 // a library goroutine started (A = 0 timeoutLoop / 1 CloseRead)
+	VerifEvGoExit    = 8 // a library goroutine exits
+)
+
+const (
+	VerifMuOther = 0
+	VerifMuMsg   = 1 // msgWriter.mu
+	VerifMuWrite = 2 // msgWriter.writeMu
+	VerifMuFrame = 3 // writeFrameMu
+	VerifMuRead  = 4 // readMu
+)
+
+// VerifEvent is one recorded synchronisation event.
+type VerifEvent struct {
+	G    int64 // goroutine id
+	Ev   int
+	Mu   int
+	A, B int
+}
+
+var verifTraces sync.Map // *Conn -> *verifTrace
+
+type verifTrace struct {
+	mu  sync.Mutex
+	evs []VerifEvent
+}
+
+// VerifTraceOn starts recording the synchronisation events of c.
+func VerifTraceOn(c *Conn) { verifTraces.Store(c, &verifTrace{}) }
+
+// VerifTrace returns the events recorded for c so far.
+func VerifTrace(c *Conn) []VerifEvent {
+	t, ok := verifTraces.Load(c)
+	if !ok {
+		return nil
+	}
+	tr := t.(*verifTrace)
+	tr.mu.Lock()
+	defer tr.mu.Unlock()
+	return append([]VerifEvent(nil), tr.evs...)
+}
+
+// VerifTraceOff forgets the trace of c.
+func VerifTraceOff(c *Conn) { verifTraces.Delete(c) }
+
+// VerifGoID returns the id of the calling goroutine.
+func VerifGoID() int64 {
+	var buf [64]byte
+	n := runtime.Stack(buf[:], false)
+	// "goroutine 123 ["
+	var id int64
+	for _, ch := range buf[10:n] {
+		if ch < '0' || ch > '9' {
+			break
+		}
+		id = id*10 + int64(ch-'0')
+	}
+	return id
+}
+
+func vhook(ev int, c *Conn, m *mu, a, b int) {
+	if m != nil {
+		c = m.c
+	}
+	t, ok := verifTraces.Load(c)
+	if !ok {
+		return
+	}
+	kind := VerifMuOther
+	if m != nil {
+		switch {
+		case c.msgWriter != nil && m == c.msgWriter.mu:
+			kind = VerifMuMsg
+		case c.msgWriter != nil && m == c.msgWriter.writeMu:
+			kind = VerifMuWrite
+		case m == c.writeFrameMu:
+			kind = VerifMuFrame
+		case m == c.readMu:
+			kind = VerifMuRead
+		}
+	}
+	tr := t.(*verifTrace)
+	g := VerifGoID()
+	tr.mu.Lock()
+	tr.evs = append(tr.evs, VerifEvent{G: g, Ev: ev, Mu: kind, A: a, B: b})
+	tr.mu.Unlock()
+}
+
+func b2i(b bool) int {
+	if b {
+		return 1
+	}
+	return 0
+}
